@@ -18,7 +18,7 @@ EARLY = ("ST", "PR")  # unsolicited frames right behind the handshake message: a
 
 
 def run_session(name_variant: str, expected: bool, app: tuple[str, ...], cuts: tuple[int, ...], probe_send: bool = False,
-                recycled: bool = False, listener: str = "") -> dict[str, Any]:
+                recycled: bool = False, listener: str = "", stall: float = 0.0) -> dict[str, Any]:
     """One fresh session (fresh client ephemeral key) whose server stream is cut at ``cuts``; () = one chunk, (-1,) = byte-wise."""
     from aioesphomeapi.core import APIConnectionError, BadNameAPIError
 
@@ -56,7 +56,14 @@ def run_session(name_variant: str, expected: bool, app: tuple[str, ...], cuts: t
                     break
             if s.sock.closed:
                 break
-            s.deliver(stream[pos:q])
+            if stall and pos == 0:
+                # the bytes have arrived, but the loop was busy elsewhere and looks at its sockets only ``stall`` seconds later - after the
+                # handshake deadline has passed; arrived data is processed before the timers that became due meanwhile
+                w.io_chunk(s.sock, stream[pos:q])
+                w.loop.advance_to(w.loop.time() + stall)
+                w.drain()
+            else:
+                s.deliver(stream[pos:q])
             pos = q
             if s.deliver_error is not None:
                 viol = f"a transport that recycles its receive buffer: delivering bytes [{pos}] failed with {s.deliver_error}"
@@ -184,6 +191,10 @@ def run(tier: str, seed: int) -> Result:
     long_app = ("ST*66000",)
     nlong, _ = stream_layout("absent", False, long_app)
     jobs.append(("absent", False, long_app, tuple(range(60000, nlong, 60000)), False))
+    # 7. a loop that stalls: the whole handshake reply is in the socket, the loop gets to it 29 / 31 / 45 s later
+    for st_ in (29.0, 31.0, 45.0):
+        for nv, exp_ in (("equal", True), ("absent", False)):
+            jobs.append((nv, exp_, ("ST", "PR"), (), False, False, "", st_))
     # 5. a user listener that unsubscribes itself from inside its first call (next to the all-types probe, and as the only
     #    subscriber of its type): the frames after it are still delivered, in order
     for lst in ("oneshot", "lone"):
@@ -210,9 +221,9 @@ def run(tier: str, seed: int) -> Result:
     for a, o in outs:
         if o["viol"]:
             kind = o["viol"].split(":")[0][:60]
-            res.add(f"name={a[0]},expected={a[1]},app={a[2]},cuts={a[3]}|{kind}", o["viol"],
+            res.add(f"name={a[0]},expected={a[1]},app={a[2]},cuts={a[3]}{',stall=' + str(a[7]) if len(a) > 7 and a[7] else ''}|{kind}", o["viol"],
                     {"harness": "c03", "name_variant": a[0], "expected": a[1], "app": list(a[2]), "cuts": list(a[3]), "probe_send": a[4],
-                     "recycled": a[5] if len(a) > 5 else False, "listener": a[6] if len(a) > 6 else ""})
+                     "recycled": a[5] if len(a) > 5 else False, "listener": a[6] if len(a) > 6 else "", "stall": a[7] if len(a) > 7 else 0.0})
     if len(res.violations) > 6:
         res.violations = res.violations[:6]
     if not res.violations and (len(outs) < 5000 or rejects < 50):
@@ -243,6 +254,6 @@ def replay(rp: dict[str, Any]) -> bool:
     env.load()
     d = rp["detail"]
     o = run_session(d["name_variant"], d["expected"], tuple(d["app"]), tuple(d["cuts"]), d.get("probe_send", False),
-                    d.get("recycled", False), d.get("listener", ""))
+                    d.get("recycled", False), d.get("listener", ""), float(d.get("stall", 0.0)))
     print(o)
     return o["viol"] is None
